@@ -103,10 +103,10 @@ func TestVerifC04(t *testing.T) {
 		EnumAt: func(tier string, i int) []int {
 			c := c04Cases[i]
 			// workers, station key (any value), mode = enumerated, parameter set, cuts
-			return []int{1, 4242, 1, c.p, c.c1, c.c2}
+			return []int{1, (c.p + c.c1 + c.c2) % 3, 4242, 1, c.p, c.c1, c.c2}
 		},
 		EnumLabels: func(string, int) []string {
-			return []string{"workers", "station-key", "mode", "paramset", "cut1", "cut2"}
+			return []string{"workers", "station-extra-keys", "station-key", "mode", "paramset", "cut1", "cut2"}
 		},
 		Runs: map[string]int{"quick": 4000, "thorough": 400000},
 		Real: []string{"cmd/application handleNewTCPConn (accumulate-and-retry read loop, MarkActive)", "min / prefix / obfs4 station transports and the matching real client transports (WrapConn produces every flight)", "pkg/station/lib Proxy / halfPipe relay", "RegistrationManager, ingest pipeline (HandleRegUpdates), RemoveOldRegistrations"},
@@ -146,6 +146,11 @@ func c04Scenario(r *sim.Run) {
 	// few phantoms so that other registrations share the phantom
 	o.groups = []stSubnetGroup{{1, true, []string{"192.0.2.4/31", "2001:db8:1::4/127"}}, {1, false, []string{"192.0.2.8/31", "2001:db8:1::8/127"}}}
 	o.workers = 1 + tp.Choose("workers", 3)
+	// key rotation: the station may hold older private keys in front of the one the clients use
+	o.extraKeys = tp.Choose("station-extra-keys", 3)
+	if o.extraKeys > 0 {
+		r.Probe("station_with_several_private_keys")
+	}
 	w := newStWorld(r, s, tp, o)
 	if w == nil {
 		return
